@@ -23,6 +23,18 @@ class ToolError(Exception):
     pass
 
 
+# every VIOLATION line that has been printed counts, even if a later stage of the same check ends with a tool error
+_NVIOL = [0]
+_builtin_print = print
+
+
+def print(*a, **k):
+    if a and isinstance(a[0], str) and a[0].startswith("VIOLATION"):
+        _NVIOL[0] += 1
+    k.setdefault("flush", True)
+    _builtin_print(*a, **k)
+
+
 def log(*a):
     print(*a, file=sys.stderr, flush=True)
 
@@ -1652,4 +1664,8 @@ def main(argv):
         return 2
     except ToolError as e:
         log("TOOL ERROR: %s" % e)
-        return 2
+        return 1 if _NVIOL[0] else 2
+    except Exception:
+        import traceback
+        log("TOOL ERROR (internal): " + traceback.format_exc())
+        return 1 if _NVIOL[0] else 2
